@@ -167,7 +167,7 @@ pub fn make_pipe(seed: u64, index: u64) -> Pipe {
 
 pub fn run(o: &Opts, rep: &mut Report) {
     let known = load_known(&o.known);
-    let total: u64 = o.cases.unwrap_or(if o.tier == "thorough" { 2_000_000 } else { 60_000 });
+    let total: u64 = o.cases.unwrap_or(if o.tier == "thorough" { 6_000_000 } else { 200_000 });
     let nthreads = o.threads.max(1);
     let seed = o.seed;
     let prop = o.prop.clone();
